@@ -1380,7 +1380,9 @@ def compile_pattern(compiler, pattern):
         ]
         return asty.MatchSequence(value, patterns=patterns)
     elif is_unpack("iterable", value):
-        return compiler.scope.assign(asty.MatchStar(value, name=mangle(value[1])))
+        return compiler.scope.assign(asty.MatchStar(
+            value,
+            name=None if value[1] == Symbol("_") else mangle(value[1])))
 
     elif isinstance(value, Dict):
         kvs, rest = value
